@@ -10,7 +10,7 @@ SEEDS = {
  "C02-1": ("C02", "an abstract plan object with exactly one possible type and a payload object without __typename at that position", "C02 quick", "caught after strengthening by the check's author (shapes I1 / U1 with a single possible type)"),
  "C02-2": ("C02", "two offending values in one payload: first a failing element of a nullable list field (absorbed), then a later position that is null / ill-typed - only the later error's path is corrupted", "C02 quick", "caught after strengthening (sibling fields k / z around the field under test, clause 'every error path is a path of the selected response shape')"),
  "C05-1": ("C05", "ParseWithLimits with MaxFields > 0 and the token sequence `...` `{` IDENT (bare untyped inline fragment starting with a field)", "C05 quick", "caught as built: limits clause, site 'field count', minimal input {...{a a}}"),
- "C05-2": ("C05", "a multi-line block description containing a whitespace-only line that is non-empty and shorter than the common indent", "see notes", "quick: missed (descriptions are compared up to indentation / blank lines because of the known block-string findings); thorough: see seeded/C05-2/meta.json"),
+ "C05-2": ("C05", "a multi-line block description containing a whitespace-only line that is non-empty and shorter than the common indent", "C05 quick", "missed as built (descriptions were compared up to indentation / blank lines because of the known block-string findings); caught after strengthening by the check's author (textual print fixed point as an independent exact oracle, block string values compared with a spec decoder): 2 new fingerprints in quick"),
  "C07-1": ("C07", "a dependency chain of three fetches with nullable @requires inputs (a -> b @requires(a) -> c @requires(b)) and any failure of the first", "C07 quick", "caught after strengthening (S-req Item.summary @requires(volume), 4-subgraph chain layout): nulling relation, value changed"),
  "C07-2": ("C07", "two byte-identical subgraph requests in flight together (same entity through two paths) and a transport error of the single-flight leader: followers are never woken", "C07 quick", "caught after strengthening (executions gated inside a synctest bubble, curated operations with duplicate entity fetches): 'execution wedged with no request in flight'"),
  "C08-1": ("C08", "EnableMultiFetch and EnableScheduleFetches both on, two same-subgraph entity fetches below different parents; merged fetch keeps only the first member's dependencies", "C08 quick", "caught as built (part a, schedule+multi: declared dependency does not tree-precede its dependant)"),
@@ -30,7 +30,21 @@ SEEDS = {
  "C19-1": ("C19", "subscribe of a query whose execution fails, then subscribe re-using the same id: the id is never released", "C19 quick", "caught after strengthening by the check's author (re-use of an id after the server's terminal message is judged; fingerprint class carries the operation kind)"),
  "C19-2": ("C19", "graphql-transport-ws, acknowledged connection, second connection_init, observer that decodes the close code (1011 instead of 4429)", "C19 quick", "caught as built (prescribed close code 4429)"),
  "C06-1": ("C06", "a list that is the type of an INPUT OBJECT FIELD whose named type is a custom scalar and whose item type is non-null or a list, with a null / non-list item in a non-empty array", "C06 quick", "caught as built: 'every non-coercible variable value is rejected', site 'list item in input field', class 'null for non-null'"),
- "C06-2": ("C06", "a multi-step sequence on ONE VariablesValidator instance: a visitor-level rejection followed by any other call (the sticky error field is never reset)", "see extra.json", "missed as built (a fresh validator per case); see extra.json for the strengthened check"),
+ "C06-2": ("C06", "a multi-step sequence on ONE VariablesValidator instance: a visitor-level rejection followed by any other call (the sticky error field is never reset)", "C06 quick", "missed as built (a fresh validator per case); caught after strengthening by the check's author (histories of calls on ONE validator instance, each answer compared with a fresh instance)"),
+ "C03-1": ("C03", "a fragment on an interface (or union) spread under a field of a CONCRETE implementing type, with >= 2 directly nested inline fragments, one compatible with that type and one on a different object type (couldInline all -> any)", "C03 quick", "missed as built; caught after strengthening by the check's author (decoration 'absfrag': ... on I { id ... on A {..} ... on B {..} } under every concrete parent, inline and named, interface and union, both orders): 'normalized operation and variables are still valid'"),
+ "C03-2": ("C03", "an operation variable that has a default value and whose value in the request variables is an explicit JSON null (default-value extraction treats null as absent)", "C03 quick", "caught as built"),
+ "C04-1": ("C04", "a list-typed variable with a default value used at a list position with a non-null item type ($ids: [ID] = [\"1\"] at [ID!])", "C04 quick", "caught as built (variables-in-allowed-position family)"),
+ "C04-2": ("C04", "an inline fragment / spread whose type condition is an ABSTRACT type inside a selection set on ANOTHER abstract type without a common possible type (UnionNodeIntersectsUnionNode compared the parent with itself)", "C04 quick", "missed as built (no two abstract types without a common member in S1/S2); caught after strengthening by the check's author (schema S3: three unions and three interfaces over five object types, every ordered abstract/abstract pair, inline and named): false accept under 5.5.2.3"),
+ "C17-1": ("C17", "several __type(name:) queries of the SAME shape on ONE engine (cached plan, same Source) with different names: the introspection source caches its first answer (sync.Once in (*Source).Load)", "C17 quick", "missed as built (every lookup sat in one aliased batch, each operation shape executed once); caught after strengthening by the check's author (histories of same-shaped __type queries, inline literal and variable form): 4 new fingerprints"),
+ "C17-2": ("C17", "an interface that implements another interface, converted JSON -> SDL", "C17 quick", "caught as built (it re-introduces the fixed finding 1921ce8; the fixed entry suppresses nothing)"),
+ "C18-1": ("C18", "two subscriptions A, B on one WebSocket connection, idle timeout 0, cancel(A) inside its protocol-level unsubscribe write while the upstream's own complete/error for A is dispatched: removeSub runs twice for A, the 'was this the last one' test counts B", "C18 quick", "caught as built on the repaired tree (fingerprint of the fixed finding N1: 'a complete or error for one subscription ends only that one'); the original patch no longer applies after fix adf3a13 - patch_ported.diff is the same edit on the current removeSub"),
+ "C18-2": ("C18", "two live subscriptions whose connection_init payloads are different JSON that render identically under %v ({\"tenant\":\"42\"} vs {\"tenant\":42})", "MISSED (author resumed)", "missed as built: the option tuples differ in visibly different characters only; the check's author was asked to add all ordered pairs of a collision-oriented option menu"),
+ "C12-1": ("C12", "an update already inside writer.Write / Flush (slow client) at the moment of removal: done() closes `completed` without taking writeMu", "MISSED (author resumed after the fixes)", "missed in quick: the harness writer's Write / Flush are not scheduling points, so no removal can land inside a write"),
+ "C12-2": ("C12", "a subscriber with heartbeats, a Flush slow enough to span a heartbeat tick: writeMu released before Flush", "C12 quick", "caught as built (3 new fingerprints: overlapping writer calls)"),
+ "C13-1": ("C13", "the trigger detached before Source.Start returns nil (last subscriber leaves during Start, or the source reports failure from inside Start as Error(); Done(); return nil), with a Reporter configured", "MASKED by known finding H2", "not reported while the genuine defect H2 (late TriggerCountInc) is a known finding: same clause, site and class; to be re-run after the H2 fix is cherry-picked"),
+ "C13-2": ("C13", "two live subscriptions to one subgraph with byte-identical operation and headers that differ only in initial_payload (SubscriptionSource.HashTriggerInput hashes selected fields)", "MISSED (author resumed after the fixes)", "missed as built: the harness uses its own source with its own HashTriggerInput; the real graphql_datasource SubscriptionSource's hashing is not driven"),
+ "C20-1": ("C20", "ONE gRPC DataSource used for several Loads with different variables (sequential with a resolver nested in a resolver and an empty second root result, or two interleaved Loads): call dependency graph shared across Loads", "MISSED (author resumed)", "missed as built: a fresh DataSource per case / no Load histories on one instance"),
+ "C20-2": ("C20", "__typename selected under an ALIAS on an interface / union typed selection", "MISSED (author resumed)", "missed as built: aliases are not applied to __typename"),
 }
 
 def log_summary(name):
@@ -59,7 +73,7 @@ for name, (prop, needs, caught, how) in SEEDS.items():
     dst = os.path.join(os.path.dirname(os.path.dirname(os.path.abspath(__file__))), "seeded", name)
     os.makedirs(dst, exist_ok=True)
     for f in os.listdir(src):
-        if f in ("patch.diff", "demo_test.go", "notes.md", "demo_engine_test.go"):
+        if f in ("patch.diff", "patch_ported.diff", "demo_test.go", "notes.md", "demo_engine_test.go"):
             shutil.copy(os.path.join(src, f), os.path.join(dst, f if f != "demo_test.go" else "demo_test.go.txt"))
     if os.path.exists(dst + "/demo_engine_test.go"):
         os.rename(dst + "/demo_engine_test.go", dst + "/demo_engine_test.go.txt")
